@@ -20,7 +20,8 @@ RULE = ('all (old span, new span) pairs over a label universe of 6 with |old| <=
         'pandas-based mixin with default arguments. non-trivial = distinct (span type, old, new, fill options) tuple')
 ASSUMPTIONS = ['a per-variable keyword given as None (or as a falsy value 0 / False / \'\') is still "given": fill_value does not apply to that variable, and None selects its dtype default',
                'fill values are compared after the cast to the variable\'s dtype (what "dtypes carry over" implies)',
-               'old spans have unique labels; repeated labels occur only in the new span']
+               'a label repeated in the old span addresses its first occurrence, as label lookup does; exercised for list / tuple spans only - NumPy-array and pandas '
+               'spans refuse a repeated label at lookup (C05, C10: KeyError), so what reindex() should carry over from them is not defined by the statement']
 ANCHORS = [('fsic/core/containers.py', 'VectorContainer.reindex'), ('fsic/core/models.py', 'BaseModel.reindex'),
            ('fsic/extensions/model.py', 'PandasIndexFeaturesMixin.reindex')]
 REQUIRED_COUNTERS = {'reindex_calls': 1000, 'cells_compared': 10000, 'originals_compared': 1000, 'identity_sweeps': 500}
@@ -291,6 +292,12 @@ def run_shard(ctx):
             old = rng.choice(olds)
             new = rng.choice(news)
             cls_name = rng.choice(['container', 'model', 'model', 'pandas-mixin'])
+            if kind in ('list[int]', 'tuple[int]', 'list[str]', 'list[mixed]') and cls_name != 'pandas-mixin' and len(old) >= 2 and rng.random() < 0.25:
+                # a label repeated in the *old* span (lists / tuples, where label lookup is defined: the first occurrence)
+                old = list(old)
+                old[rng.randrange(1, len(old))] = old[0]
+                old = tuple(old)
+                ctx.count('old_spans_with_repeated_label')
             for opts in option_sets(rng, 2):
                 if cls_name == 'container' and any(k in ('status', 'iterations') for k in opts.get('fills', {})):
                     continue
